@@ -35,6 +35,7 @@ def main():
         return run.finish(dict(evaluations=0), [], [])
     wd = scratch_dir()
     run.check_proofs(deps=['theories/Model/Atomic.vo'])
+    NCORPUS = run_corpus(run, PID, src)          # minimised past failures first
     CHIBI = [os.path.join(src, 'chibicc'), '-I' + os.path.join(src, 'include')]
     evals = 0; nontriv = set(); samples = []
 
